@@ -153,3 +153,76 @@ Proof. intro H. split; [apply gen_close_class_is|apply gen_status_bytes_is]; exa
 Theorem pool_rounding_from_source v : (v < 2 ^ 32)%N ->
   gf_internal_binaryCeil (Z.of_N v) = Z.of_N (binary_ceil v).
 Proof. exact (gen_binaryCeil_is v). Qed.
+
+(* ---- the reader's guard ladders (reader.go: checkMask, the leading statements of readMessage and readControl) ---- *)
+From Gws Require Import Model.Reader.
+
+Lemma gen_checkMask_is server masked :
+  gf_gws_Conn_checkMask server masked = if (server && negb masked) || (negb server && masked) then 1002 else 0.
+Proof. reflexivity. Qed.
+
+Ltac fin := repeat split; intros; first [reflexivity | assumption | exfalso; lia | discriminate | auto 6].
+
+Section ReaderGuards.
+Variable utf8_valid : list N -> bool.
+Variable inflate : list N -> list N -> Z -> option (list N).
+Variable W : Type.
+Variable wdict : W -> list N.
+Variable wwrite : W -> list N -> W.
+Notation read_message := (Reader.read_message utf8_valid inflate W wdict wwrite).
+Notation read_control := (Reader.read_control utf8_valid W).
+
+(* the generated ladder, fed with the header the model parsed *)
+Definition gen_guards (c : rcfg) (h : pheader) : Z :=
+  gf_gws_Conn_readMessage (r_limit c) (r_server c) (r_pmd c) (get_fin (h_b0 h)) (get_mask (h_b1 h))
+    (Z.of_N (get_opcode (h_b0 h))) (get_rsv1 (h_b0 h)) (get_rsv2 (h_b0 h)) (get_rsv3 (h_b0 h)) (h_len h) 0.
+
+Lemma opcode_is_data op : gf_gws_Opcode_isDataFrame (Z.of_N op) = is_data_op op.
+Proof. unfold gf_gws_Opcode_isDataFrame, is_data_op. change (Z.to_N gws_OpcodeBinary) with 2%N. lia. Qed.
+
+(* What readMessage does before it touches the payload is what the source says, guard by guard and in the source's
+   order: a positive result is the close status the model fails with; -1 means the frame is handed to readControl; 0 means
+   all header checks passed for a data frame. *)
+Theorem read_message_guards_from_source c st bs h rest :
+  parse_header bs = POk h rest ->
+  let g := gen_guards c h in
+  (0 < g -> read_message c st bs = SStop W [] (OFail W (Z.to_N g)))
+  /\ (g = -1 -> read_message c st bs = read_control c st h rest)
+  /\ (g = 0 -> is_data_op (get_opcode (h_b0 h)) = true
+               /\ ((h_len h <? 0) || (h_len h >? r_limit c))%Z = false
+               /\ (get_rsv2 (h_b0 h) || get_rsv3 (h_b0 h) || (get_rsv1 (h_b0 h) && negb (r_pmd c))) = false
+               /\ ((r_server c && negb (get_mask (h_b1 h))) || (negb (r_server c) && get_mask (h_b1 h))) = false)
+  /\ (g = 1009 \/ g = 1002 \/ g = -1 \/ g = 0).
+Proof.
+  intros Hp g. subst g. unfold gen_guards, gf_gws_Conn_readMessage, Reader.read_message. rewrite Hp.
+  rewrite gen_checkMask_is, opcode_is_data. cbn [Z.eqb negb].
+  change sc_too_large with 1009%N. change sc_protocol with 1002%N.
+  destruct ((h_len h <? 0) || (h_len h >? r_limit c))%Z eqn:E1.
+  { fin. }
+  destruct (get_rsv2 (h_b0 h) || get_rsv3 (h_b0 h) || (get_rsv1 (h_b0 h) && negb (r_pmd c))) eqn:E2.
+  { fin. }
+  destruct ((r_server c && negb (get_mask (h_b1 h))) || (negb (r_server c) && get_mask (h_b1 h))) eqn:E3.
+  { cbn [Z.eqb negb]. fin. }
+  cbn [Z.eqb negb].
+  replace (Z.of_N (get_opcode (h_b0 h)) =? 0)%Z with (get_opcode (h_b0 h) =? 0)%N by lia.
+  destruct (r_pmd c && get_rsv1 (h_b0 h) && (negb (is_data_op (get_opcode (h_b0 h))) || (get_opcode (h_b0 h) =? 0)%N)) eqn:E4.
+  { fin. }
+  destruct (negb (is_data_op (get_opcode (h_b0 h)))) eqn:E5.
+  { fin. }
+  apply Bool.negb_false_iff in E5.
+  fin.
+Qed.
+
+(* readControl's leading checks: not FIN or a length code above 125 -> 1002 *)
+Theorem read_control_guards_from_source c st h rest :
+  let g := gf_gws_Conn_readControl (get_fin (h_b0 h)) (Z.of_N (get_lencode (h_b1 h))) in
+  (g = 1002 \/ g = 0) /\ (g = 1002 -> read_control c st h rest = SStop W [] (OFail W 1002%N)).
+Proof.
+  cbv zeta. unfold gf_gws_Conn_readControl, Reader.read_control. change sc_protocol with 1002%N.
+  unfold thresholdV1. change (Z.to_N internal_ThresholdV1) with 125%N.
+  destruct (get_fin (h_b0 h)); cbn [negb].
+  - replace (Z.of_N (get_lencode (h_b1 h)) >? 125)%Z with (125 <? get_lencode (h_b1 h))%N by lia.
+    destruct (125 <? get_lencode (h_b1 h))%N; split; auto; intro; try reflexivity; discriminate.
+  - split; auto.
+Qed.
+End ReaderGuards.
